@@ -48,8 +48,18 @@ func runRT(r *ev.Recorder, c *rtCase) (string, string) {
 		other = od.GetPK()
 	}
 	var held, heldCopy []byte // a sealed message the caller still holds must not change when the key signs again
-	for i, m := range c.Msgs {
-		tag := fmt.Sprintf("message %d (%d bytes)", i, len(m))
+	// the caller re-uses ONE message buffer, overwriting it in place between calls (a common pattern)
+	maxLen := 0
+	for _, m := range c.Msgs {
+		if len(m) > maxLen {
+			maxLen = len(m)
+		}
+	}
+	shared := make([]byte, maxLen)
+	for i, orig := range c.Msgs {
+		copy(shared, orig)
+		m := shared[:len(orig)]
+		tag := fmt.Sprintf("message %d (%d bytes, passed in a re-used buffer)", i, len(m))
 		if held != nil && !bytes.Equal(held, heldCopy) {
 			return "seal/changes-after-later-call", fmt.Sprintf("the sealed message returned for message %d was modified by a later Sign/Seal call", i-1)
 		}
@@ -138,6 +148,15 @@ func TestRoundTrips(t *testing.T) {
 				c.Msgs = append(c.Msgs, pu.Msg(65536).Draw(rt, "msg"))
 			} else {
 				c.Msgs = append(c.Msgs, pu.Msg(600).Draw(rt, "msg"))
+			}
+			if i > 0 && rapid.IntRange(0, 2).Draw(rt, "sameLen") == 0 {
+				// same length as the previous message, different content (in-place overwrite of the caller's buffer)
+				prev := c.Msgs[i-1]
+				m := pu.DetBytes(rapid.Uint64().Draw(rt, "sameLenContent"), len(prev))
+				if len(m) > 0 && bytes.Equal(m, prev) {
+					m[0] ^= 1
+				}
+				c.Msgs[i] = m
 			}
 		}
 		key, msg := runRT(r, c)
